@@ -299,7 +299,21 @@ func execMembership(t *testing.T, p *Plan) *Result {
 			for i := 0; i < n; i++ {
 				ids := dlgIDs{callID: fmt.Sprintf("probe-%s-%d", step, i), fromURI: "sip:p@caller.test", toURI: "sip:svc@svc.example.com", fromTag: fmt.Sprintf("pt%s%d", step, i), ruri: "sip:svc.example.com"}
 				emBefore := len(w.N.Emissions)
-				id := send("OPTIONS", ids, reqOpts{cseq: 1, noToTag: true})
+				// requests of any method that belong to no known dialog are load-balanced - also those that look like
+				// requests of a dialog (a To tag nobody here knows: unsolicited NOTIFY, BYE of a call from before a restart)
+				meth, o := "OPTIONS", reqOpts{cseq: 1, noToTag: true}
+				switch (i + len(S) + len(step)) % 6 {
+				case 1:
+					meth, o.noToTag = "NOTIFY", false
+					ids.toTag = fmt.Sprintf("ut%s%d", step, i)
+					o.extra = []sipwire.Header{{Name: "Event", Value: "presence"}, {Name: "Subscription-State", Value: []string{"active;expires=60", "terminated"}[i%2]}}
+				case 2:
+					meth, o.noToTag = "BYE", false
+					ids.toTag = fmt.Sprintf("ub%s%d", step, i)
+				case 3:
+					meth = "MESSAGE"
+				}
+				id := send(meth, ids, o)
 				ds := destOf(id)
 				if len(S) == 0 && len(w.N.Emissions) != emBefore && len(ds) == 0 {
 					// "with no backend registered the request is dropped": nothing at all is sent because of it
